@@ -97,9 +97,13 @@ theorem varint_too_big (v : Int) (h : v < 0 ∨ (2 : Int) ^ 62 ≤ v) : chunkUin
   rw [i62] at h
   exact chunkUintVar_out v h
 
-/-- the code *before* the fix (format `K`): `push_uint_var(v)` raises ValueError
-exactly when `v mod 2^64 ≥ 2^62` … -/
-theorem varint_too_big_legacy_partial (v : Int) :
+/-- the code *before* fix 56a913c (format `K` reduces modulo 2^64 first): an exact
+characterisation, not a partial result — `push_uint_var(v)` raised ValueError
+*if and only if* `v mod 2^64 ≥ 2^62`.  Nothing blocks the full statement
+"every out-of-range int raises": it is `varint_too_big` above, proved for the
+code as it is now; for the legacy code it is simply false
+(`varint_too_big_legacy_false`). -/
+theorem varint_too_big_legacy_iff (v : Int) :
     2 ^ 62 ≤ argMask (2 ^ 64) v ↔ chunkUintVarLegacy v = .error (.py .value) := by
   have e62 : (2 : Nat) ^ 62 = 4611686018427387904 := by decide
   have e64 : (2 : Nat) ^ 64 = 18446744073709551616 := by decide
@@ -112,6 +116,15 @@ theorem varint_too_big_legacy_partial (v : Int) :
     intro hn
     rw [encVarint_ok _ (by omega)] at h
     cases h
+
+/-- the full statement is refuted for the legacy code -/
+theorem varint_too_big_legacy_false :
+    ¬ (∀ v : Int, (2 : Int) ^ 62 ≤ v → chunkUintVarLegacy v = .error (.py .value)) := by
+  intro h
+  have := h (2 ^ 64 + 5) (by decide)
+  have hc : chunkUintVarLegacy (2 ^ 64 + 5) = .ok [5] := by decide
+  rw [hc] at this
+  cases this
 
 /-- … so `push_uint_var(2**64 + 5)` silently wrote `05` (the defect the fix removes) -/
 theorem varint_too_big_legacy_counterexample : chunkUintVarLegacy (2 ^ 64 + 5) = .ok [5] := by decide
@@ -448,7 +461,8 @@ end AQ.Props.C17
 #print axioms AQ.Props.C17.varint_decode_canonical
 #print axioms AQ.Props.C17.varint_size
 #print axioms AQ.Props.C17.varint_too_big
-#print axioms AQ.Props.C17.varint_too_big_legacy_partial
+#print axioms AQ.Props.C17.varint_too_big_legacy_iff
+#print axioms AQ.Props.C17.varint_too_big_legacy_false
 #print axioms AQ.Props.C17.varint_too_big_legacy_counterexample
 #print axioms AQ.Props.C17.uint_roundtrip
 #print axioms AQ.Props.C17.uint_truncation_legacy
